@@ -19,6 +19,7 @@ func checkC02(r *Run) {
 	ruleFloatRendering(r, p)
 	ruleRawCBORAlphabet(r, p)
 	ruleNetText(r, p)
+	ruleA2(r, p)                        // an element separator doubled or lost in one entry point (Array.Err vs Errs vs Fields) is a different encoding of the same value
 	ruleWithCarriesContext(r, p, "A12") // a child logger starts from all of its parent's context bytes
 	ruleErrReachesField(r, p, "ERRFIELD")
 	ruleDurationArithmetic(r, p, "DUR")
